@@ -700,3 +700,40 @@ Section Bridge.
     cbn [ret view]. rewrite public_set_internal by reflexivity. rewrite RB2. reflexivity.
   Qed.
 End Bridge.
+
+(* ------------------------------------------------------------------ the side conditions are satisfiable; the order matters *)
+Definition ex_cls : classdef :=
+  {| c_name := s2p "Foo"; c_ancestors := [];
+     c_fields := [ {| fd_name := s2p "a"; fd_field := FNumber KInteger SAny no_numc; fd_immutable := false; fd_default := None |};
+                   {| fd_name := s2p "b"; fd_field := FNumber KInteger SPositive no_numc; fd_immutable := false; fd_default := None |};
+                   {| fd_name := s2p "d"; fd_field := FNumber KFloat SAny no_numc; fd_immutable := false;
+                      fd_default := Some (PNum (NInt 2)) |} ];
+     c_required := [s2p "a"; s2p "b"]; c_additional := true; c_ignore_none := false; c_immutable := false;
+     c_hook := HookLe (s2p "a") (s2p "b") |}.
+Definition ex_good : kwargs := [(s2p "a", PNum (NInt 1)); (s2p "extra", PStr (s2p "x")); (s2p "b", PNum (NInt 2))].
+Definition ex_bad : kwargs := [(s2p "b", PNum (NInt (-1))); (s2p "a", PStr (s2p "x"))].
+Definition ex_world (ord : kwargs -> kwargs) : world :=
+  model_world (fun _ _ => true) [ex_cls] (fun _ _ _ => []) [] [] (fun x => x) (fun _ => []) ord ex_cls.
+Definition ex_run (ord : kwargs -> kwargs) (kw : kwargs) : res pyval :=
+  view ex_cls (Structure__init (init_heap ex_cls true) (ex_world ord) (PTuple []) (kw_dict kw) []).
+
+Example init_dom_satisfiable :
+  init_dom ex_cls ex_good = true /\ init_dom ex_cls ex_bad = true /\
+  ex_run (fun x => x) ex_good =
+    Ok (PStruct (s2p "Foo") [(s2p "extra", PStr (s2p "x")); (s2p "d", PNum (NFlt 1 1)); (s2p "a", PNum (NInt 1)); (s2p "b", PNum (NInt 2))]) /\
+  ex_run (fun x => x) ex_bad = Raise ValueError.
+Proof. repeat split; vm_compute; reflexivity. Qed.
+
+(* DISAGREEMENT between the hand model and the source: [construct] assigns the declared keywords in the order the
+   CALLER wrote them, Structure.__init__ in the order of the signature's parameters (make_signature builds the required
+   parameters from a Python set: the order changes with PYTHONHASHSEED).  Foo(b=-1, a='x') with the signature (a, b):
+   the source raises TypeError (Foo.a), [construct] ValueError (Foo.b); typedpy follows the source. *)
+Example order_disagreement :
+  ex_run (@rev _) ex_bad = Raise TypeError /\
+  Instance.construct (fun _ _ => true) [ex_cls] ex_cls ex_bad = Raise ValueError.
+Proof. split; vm_compute; reflexivity. Qed.
+
+Print Assumptions generated_init_is_construct.
+Print Assumptions model_setattr_is_source.
+Print Assumptions init_dom_satisfiable.
+Print Assumptions order_disagreement.
